@@ -294,6 +294,21 @@ def check_case(acc, case, pc=None) -> list[dict]:
     raw_items = [it for it in items if it["kind"] in RAW_BLOCK + RAW_INLINE or it["kind"] == "inc_rawhtml"]
     file_items = [it for it in items if it["kind"] in FILE_KINDS]
     base_paths = None
+    # which constructs were actually realised in this document (positive control, both switches on)?  A construct that
+    # the surrounding Markdown turned into something else (e.g. a hard break that became a lazy continuation line)
+    # cannot be "refused", so no warning is owed for it.
+    html_on = results[(True, True)][2]
+    realised = {}
+    for it in items:
+        k, n = it["kind"], it["n"]
+        if k == "strike":
+            realised[n] = "<s>" in html_on
+        elif k == "hardbreak":
+            realised[n] = "<br />" in html_on
+        elif k in FILE_KINDS and k != "inc_rawhtml":
+            realised[n] = f"VFILE{n}Z" in html_on
+        else:
+            realised[n] = f"<vs-{n}" in html_on
     for (R, F), (doc, warn, html, raws, opened) in results.items():
         tag = f"raw_enabled={R} file_insertion_enabled={F}"
         doc_text = doc.astext()
@@ -323,7 +338,7 @@ def check_case(acc, case, pc=None) -> list[dict]:
             k = it["kind"]
             is_raw = k in RAW_BLOCK + RAW_INLINE
             is_file = k in FILE_KINDS
-            if (is_raw and not R) or (is_file and not F) or (k in NEEDS_RAW_TOO and not R):
+            if realised.get(it["n"]) and ((is_raw and not R) or (is_file and not F) or (k in NEEDS_RAW_TOO and not R)):
                 refused += 1
         wl = [w for w in front.warning_lines(warn) if re.search(r"disabled|deactivated", w)]
         if len(wl) < refused:
